@@ -22,7 +22,9 @@ LEVEL_TEXT = ("Coq theorems over an executable model of the labelled dense matri
               "with the group array as primary key, label-argument precedence of adjoin/insert/append/incorp, scalar-index wrap, the whole metadata "
               "pipeline of the two masked genotyping protocols, block slices of the square adjoin/append) are regenerated on every run "
               "(Gen/C03_Kernel.v), proved equal to the model's (reflexivity) and the partition/dispatch theorems are restated about them; "
-              "sessions: a history's continuation depends only on the state reached. "
+              "sessions: a history's continuation depends only on the state reached; the form of an index does not matter: a bare integer index of "
+              "delete/remove/insert/incorp is the one-element index list (and a 0-d array index of insert/incorp, which the source's guard lets through "
+              "unwrapped, is refuted: C03_zero_dim_insert_refuted). "
               "The model is tied to the code by evaluating whole operation histories inside Coq against the implementation's state after "
               "every step, plus an independent entity-tracing predicate")
 LEVEL_NOTE = ("trusted: Coq kernel + vm_compute; the hand-written model of numpy.take/delete/insert/append/concatenate/lexsort/unique "
@@ -44,13 +46,24 @@ RULE = ("case = (class, initial matrix given by entity ids per axis + which labe
         "passed as values, original of a copy; the last 4) is re-inspected after every later step (aliasing: in-place writes into shared arrays); derived "
         "counters (ntaxa/nvrnt/ntrait/nphase, mat_shape, mat_ndim) are observed after every step; 18 (120) histories with one axis of 129..300 entities "
         "(indices, group lengths and start/stop indices beyond 127 and 255) plus 4 (24) masked genotypings of 257..300 grouped variants; an entry-point audit "
-        "(inspect) fails the run when a public member or parameter of the 13 classes / 3 protocols is neither driven, observed nor listed in SKIPPED")
+        "(inspect) fails the run when a public member or parameter of the 13 classes / 3 protocols is neither driven, observed nor listed in SKIPPED; "
+        "index encodings: ~55% of the valid index arguments of every operation are handed over in another encoding than the plain Python value - int as a "
+        "numpy integer scalar (int8..int64, uint8..uint64, every width that holds the value and the axis length) or a 0-d array; list as tuple / range / "
+        "list of numpy scalars of mixed widths / ndarray of a non-default dtype; numpy bool mask as Python list or tuple of bools (delete/remove) - and the "
+        "model and the specification ignore the encoding (expected: the behaviour of the plain value); plus a systematic sweep, 15 short histories per "
+        "(class, labelled axis kind) (x6 thorough): every scalar width on insert|incorp and delete|remove, every list encoding and dtype, ranges that "
+        "differ from the slice of the same bounds (descending to 0, crossing 0, negative, step 2), every dtype / tuple / range / scalar list on "
+        "select and reorder, all axes >= 2 entities and blocks of 2 so that an unwrapped scalar, a mask read as integers or a narrow cast is visible; "
+        "not given because numpy itself rejects them: unsigned index arrays of more than one element and Python sequences of bools for numpy.insert, "
+        "lists mixing uint64 with signed scalars (promoted to float64), a tuple for reorder (`arr[tuple]` is a multi-axis index)")
 TRUSTED = ["numpy primitives are modelled (plan + gather) and compared with the implementation only on generated inputs",
            "label values are shipped as integer codes (names 't007' <-> 7, floats k/8 <-> k, bools <-> 0/1, None <-> -1)",
            "DenseBreedingValueMatrix cells are observed as unscale() rounded to the nearest integer when within 2^-20 relative",
            "harness/translate/c03_dispatch.py and c03_metareset.py (ast -> Coq tables, fail closed)",
            "harness/translate/c03_kernel.py (ast -> Gen/C03_Kernel.v: expressions via translate/pyexpr.py, statement patterns matched literally, fail closed)",
-           "copy steps are the identity of the model (not emitted as model steps; a copy that alters the observable state makes the case disagree)"]
+           "copy steps are the identity of the model (not emitted as model steps; a copy that alters the observable state makes the case disagree)",
+           "index encodings are not modelled: every encoding of an index is shipped to Coq as the plain value (OInt / OList / OMask); a 0-d array index of "
+           "insert/incorp on an inner axis (known finding) ends the part of the history evaluated in Coq, the step is judged by the predicate only"]
 ASSUMPTIONS = ["valid arguments: indices within range, one label array per field the matrix carries (name arrays may be absent: filled with None), "
                "operands share the entities of the other axes",
                "cells are integers (int8 0..2 for genotype matrices, exact in float64 otherwise); label codes are non-negative"]
@@ -1441,8 +1454,17 @@ def gen_big_case(rng, clsname, force=None):
     case["tab"] = G.tab
     return case
 
-ENC_SEGMENTS = ["scalar", "lists", "take"]
-def gen_enc_case(rng, clsname, kind, seg):
+def range_list(r, n, top):
+    """an arithmetic progression (as a list) with values in [-n, top): ascending, descending down to 0 (the range's stop is -1),
+    crossing zero, all negative, step 2 - the shapes on which a range differs from the slice with the same start/stop/step"""
+    cand = [[a, a + 1] for a in range(0, top - 1)] + [[a + 1, a] for a in range(0, top - 1)] + [[a] for a in range(0, top)]
+    if top >= 2: cand += [[1, 0]] * 3
+    if n >= 1 and top >= 1: cand += [[-1, 0]] * 2
+    if n >= 2: cand += [[-2, -1], [-1, -2]]
+    if top >= 3: cand += [[0, 2], [2, 0]]
+    return list(r.choice(cand))
+ENC_SEGMENTS = [("scalar", 8), ("lists", 4), ("take", 3)]           # (segment, number of cases its encodings are dealt over)
+def gen_enc_case(rng, clsname, kind, seg, part=0, nparts=1):
     """systematic sweep of index-argument ENCODINGS for one (class, axis kind): every axis has >= 2 entities and inserted blocks
     have 2, so an index that reaches numpy in another form than the plain Python value (a scalar not wrapped into a list moves
     axis 0 of the block, a narrow dtype overflows, a mask read as integers) changes cells, shape or raises.
@@ -1451,7 +1473,8 @@ def gen_enc_case(rng, clsname, kind, seg):
             Python list and tuple of bools;
     take  : select / reorder with ndarray of every dtype / tuple / range / list of numpy scalars.
     Operation of each pair (mutating or not) and form (axis-specific or generic, positive or negative axis) are drawn per step;
-    run_impl additionally runs the other form and the counterpart of every step on rebuilt copies."""
+    run_impl additionally runs the other form and the counterpart of every step on rebuilt copies.
+    The encodings of a segment are dealt over `nparts` short cases (a failing step ends the judgement of its history)."""
     G = _Gen(rng, clsname, 0, "quick")
     C = G.C; r = rng
     ents = {n: list(range(r.choice([2, 3]))) for n in dict.fromkeys(free_names(C))}
@@ -1490,16 +1513,17 @@ def gen_enc_case(rng, clsname, kind, seg):
             if not push(("delete", "remove"), obj={"t": "int", "v": r.randrange(-n_(), n_())}): break
     if seg == "scalar":
         dts = list(INT_DTYPES); r.shuffle(dts)
-        for i, dt in enumerate(dts):
+        for i, dt in enumerate(INT_DTYPES):
+            if i % nparts != part: continue
             grow(sc(dt, n_() + 1), 2)
             if n_() > 1: push(("delete", "remove"), obj=sc(dts[(i + 3) % 8], n_()))
             if n_() > 1: push(("delete", "remove"), obj=sc(dts[(i + 5) % 8], n_(), "0d" if i % 2 else "np"))
-        if not sq:
+        if not sq and part % 2 == 0:
             # a 0-d array index: like the int on the outermost axis; on an inner axis the known finding C03-zero-dim-index-insert-moveaxis (last step)
             grow(sc(r.choice(INT_DTYPES), n_() + 1, "0d"), 2)
     elif seg == "lists":
-        kinds = ["tuple", "range", "nplist", "mask", "lmask", "ltuple"] + ["dt:" + d for d in INT_DTYPES]
-        r.shuffle(kinds)
+        kinds = ["tuple", "range", "nplist", "mask", "lmask", "ltuple"] + ["dt:" + d for d in INT_DTYPES] + ["range", "range"]
+        kinds = kinds[part::nparts]; r.shuffle(kinds)
         for e in kinds:
             n = n_()
             # insertion
@@ -1512,7 +1536,7 @@ def gen_enc_case(rng, clsname, kind, seg):
                 uns = e.startswith("dt:u")
                 if uns: m = 1                                              # numpy.insert itself fails on longer unsigned index arrays
                 v = [r.randrange(0 if uns else -n, n + 1) for _ in range(m)]
-                if e == "range": a = r.randrange(0, n); v = [a, a + 1][:m] if a + 1 <= n else [a]
+                if e == "range": v = range_list(r, n, n + 1)
                 o = {"t": "list", "v": v, "e": e}
                 if e.startswith("dt:"): o["t"] = "array"
                 if e == "nplist": o["e"] = _nplist_enc(r, fitting_dtypes(v, n, signed_only=(len(v) != 1)))
@@ -1527,7 +1551,7 @@ def gen_enc_case(rng, clsname, kind, seg):
             else:
                 uns = e.startswith("dt:u")
                 v = [r.randrange(0 if uns else -n, n) for _ in range(r.choice([1, 2, 2]))]
-                if e == "range": a = r.randrange(0, n - 1); v = [a, a + 1]
+                if e == "range": v = range_list(r, n, n)
                 if len(set(x % n for x in v)) >= n: v = v[:1]
                 o = {"t": "list", "v": v, "e": e}
                 if e.startswith("dt:"): o["t"] = "array"
@@ -1536,7 +1560,7 @@ def gen_enc_case(rng, clsname, kind, seg):
             shrink_to(4)
     else:
         iks = ["tuple", "range", "nplist"] + ["array:" + d for d in INT_DTYPES]
-        r.shuffle(iks)
+        iks = iks[part::nparts]; r.shuffle(iks)
         for ik in iks:
             n = n_()
             uns = ik.startswith("array:u")
@@ -1549,8 +1573,7 @@ def gen_enc_case(rng, clsname, kind, seg):
                     if ik == "range": idx = list(range(n - 1, -1, -1)) if n > 1 else [0]
                 else:
                     idx = [r.randrange(0 if uns else -n, n) for _ in range(r.choice([n, n, n + 1, max(2, n - 1)]))]
-                    if ik == "range": a = r.randrange(0, n); idx = list(range(a, n)) + list(range(0, a))[:1]
-                    if ik == "range" and not is_progression(idx): idx = list(range(n))
+                    if ik == "range": idx = r.choice([range_list(r, n, n), list(range(n)), list(range(n - 1, -1, -1)), list(range(-n, 0))])
                 ikk = _nplist_enc(r, fitting_dtypes(idx, n)) if ik == "nplist" else ik
                 push((opn,), idx=idx, ik=ikk)
             shrink_to(4)
@@ -1585,8 +1608,9 @@ def gen_cases(rng, tier):
             Cn = CLASSES[cn]
             for kind in Cn["lkinds"]:
                 if Cn.get("bv") and kind != "taxa": continue          # trait-axis operations of breeding-value matrices: C15
-                for seg in ENC_SEGMENTS:
-                    cases.append(gen_enc_case(rng, cn, kind, seg))
+                for seg, nparts in ENC_SEGMENTS:
+                    for part in range(nparts):
+                        cases.append(gen_enc_case(rng, cn, kind, seg, part, nparts))
     audit_entry_points()
     return cases
 
